@@ -101,8 +101,65 @@ class Shard:
         }
 
 
-def _run_shard(args):
+INTERPRETERS = {
+    # name -> (extra interpreter flags, extra environment): the same check under another interpreter configuration
+    "python-O": (["-O"], {}),
+    "no-int-digit-limit": ([], {"PYTHONINTMAXSTRDIGITS": "0"}),
+    "C-locale-no-utf8-mode": ([], {"LC_ALL": "C", "LANG": "C", "PYTHONUTF8": "0", "PYTHONCOERCECLOCALE": "0",
+                                    "PYTHONIOENCODING": "utf-8"}),
+    "dev-mode": (["-X", "dev"], {}),
+}
+
+
+def _run_shard_in_child(modname, spec):
+    """Run the shard in a child interpreter started with other flags / environment variables."""
+    import pickle
+    import subprocess
+    import tempfile
+
+    flags, extra = INTERPRETERS[spec["interp"]]
+    child_spec = {k: v for k, v in spec.items() if k != "interp"}
+    child_spec["interp_name"] = spec["interp"]
+    with tempfile.TemporaryDirectory(prefix="shard.", dir="/tmp") as d:
+        sf, of = os.path.join(d, "spec.json"), os.path.join(d, "out.pickle")
+        with open(sf, "w") as f:
+            json.dump(child_spec, f)
+        env = dict(os.environ, **extra)
+        cmd = [sys.executable, "-X", "utf8"] if "PYTHONUTF8" not in extra else [sys.executable]
+        p = subprocess.run(cmd + flags + ["-m", "vlib.shard_child", modname, sf, of], env=env, cwd=VERIF,
+                           capture_output=True, text=True)
+        if not os.path.exists(of):
+            return ("harness-error", f"child interpreter ({spec['interp']}) failed:\n{p.stderr[-3000:]}")
+        with open(of, "rb") as f:
+            res = pickle.load(f)
+    if res[0] == "ok":
+        r = res[1]
+        r["classes"] = collections.Counter({f"{k}": v for k, v in r["classes"].items()})
+        r["classes"]["interpreter:" + spec["interp"]] += r["evaluations"]
+        for b in r["buckets"].values():
+            for _size, case, failure in b["cases"]:
+                failure["what"] = f"[under {spec['interp']}] " + failure.get("what", "")
+                if isinstance(case, dict):
+                    case["interp"] = spec["interp"]
+    return res
+
+
+def _limit_memory():
+    """Address-space ceiling per shard worker: a runaway case becomes a MemoryError (harness error, exit 2) in that
+    worker instead of exhausting the machine."""
+    import resource
+    gb = float(os.environ.get("VERIF_MEM_GB", "6"))
+    if gb > 0:
+        lim = int(gb * 2**30)
+        soft, hard = resource.getrlimit(resource.RLIMIT_AS)
+        if hard == resource.RLIM_INFINITY or lim < hard:
+            resource.setrlimit(resource.RLIMIT_AS, (lim, hard))
+
+
+def _run_shard(args, in_child=False):
     modname, spec = args
+    if spec.get("interp") and not in_child:
+        return _run_shard_in_child(modname, spec)
     try:
         mod = importlib.import_module(modname)
         shard = Shard(spec.get("shard", 0))
@@ -254,6 +311,13 @@ def _main(prop, tier, seed, replay, t0) -> int:
 
     if replay:
         case = load_case(replay)
+        if isinstance(case, dict) and case.get("interp") and not os.environ.get("VERIF_IN_VARIANT"):
+            # the case was found under another interpreter configuration: replay it there
+            import subprocess
+            flags, extra = INTERPRETERS[case["interp"]]
+            cmd = [sys.executable] + (["-X", "utf8"] if "PYTHONUTF8" not in extra else []) + flags
+            return subprocess.run(cmd + ["-m", "vlib.runner", prop, "--replay", replay],
+                                  env=dict(os.environ, VERIF_IN_VARIANT="1", **extra), cwd=VERIF).returncode
         failure = mod.examine(case)
         if failure is None:
             print(f"replay: property={prop} holds on {replay}")
@@ -286,9 +350,16 @@ def _main(prop, tier, seed, replay, t0) -> int:
     if nproc <= 1:
         results = [_run_shard((modname, s)) for s in specs]
     else:
+        # a worker killed from outside (e.g. by the kernel's OOM killer) must end the run with a harness error,
+        # not hang it: ProcessPoolExecutor reports a broken pool, multiprocessing.Pool waits for ever
+        from concurrent.futures import ProcessPoolExecutor
+        from concurrent.futures.process import BrokenProcessPool
         ctx = mp.get_context("fork")
-        with ctx.Pool(nproc) as pool:
-            results = pool.map(_run_shard, [(modname, s) for s in specs], chunksize=1)
+        try:
+            with ProcessPoolExecutor(nproc, mp_context=ctx, initializer=_limit_memory) as pool:
+                results = list(pool.map(_run_shard, [(modname, s) for s in specs], chunksize=1))
+        except BrokenProcessPool as e:
+            raise HarnessError(f"a shard worker died ({e}); nothing is concluded from this run") from e
     bad = [r[1] for r in results if r[0] != "ok"]
     if bad:
         raise HarnessError("shard failed:\n" + bad[0])
